@@ -189,6 +189,9 @@ class CallMixin:
             ci, meth = self.tree.lookup_method(base.name, name)
             if meth is not None:
                 fv = FuncVal(ci.file, ci.name + '.' + name, meth, cls=ci.name)
+                decs = [ast.unparse(d) for d in meth.decorator_list]
+                if 'classmethod' in decs:
+                    return self.call_function(fv, [base] + list(args), kwargs, st, fr, node)
                 return self.call_function(fv, list(args), kwargs, st, fr, node)
             return self.call_external(['%s.%s' % (base.name, name)], None, name, args, kwargs, st, fr, node)
         if isinstance(base, list):
@@ -526,7 +529,7 @@ class CallMixin:
                 sorts = [t.sort() for t in terms]
             fname = ext.get('fname', 'ext_' + label.lstrip('.').replace('.', '_'))
             key = sortkey(rspec)
-            f = z3.Function('%s_%d' % (fname, len(terms)), *sorts, SORTS[key])
+            f = z3.Function(fname if ext.get('exact_name') else '%s_%d' % (fname, len(terms)), *sorts, SORTS[key])
             term = f(*terms) if terms else z3.Const(fname, SORTS[key])
             res = self.wrap(term, rspec)
             if ext.get('nonnull') and isinstance(res, Obj):
